@@ -150,6 +150,10 @@ fn run_scenario(sc: &Value, idx: usize, bin: &Path, scratch: &Path, local: bool)
         if idx % 2 == 1 { m.push(json!([d.join("mnt/releases/v1").to_string_lossy(), "/srv/v1"])); }
         if idx % 4 == 1 { m.push(json!([d.join("mnt/releases/../releases/v1").to_string_lossy(), "/srv/dotted"])); }
     }
+    // every other configuration rebuilds with the context's own configuration (`ctx.config.clone()`), and sets
+    // the container's command before its entrypoint
+    cfg["rebuild_from_context"] = json!(idx % 2 == 0 && !local);
+    cfg["command_first"] = json!(idx % 4 >= 2);
     // local mode: the manifest directory is a buildpack crate in a Cargo workspace with a second
     // crate and a composite buildpack; buildpack references mix CurrentCrate / WorkspaceBuildpack /
     // Other and the (dependency-free) crates are really compiled and packaged
@@ -349,13 +353,13 @@ fn run_scenario(sc: &Value, idx: usize, bin: &Path, scratch: &Path, local: bool)
                         let path = get("--path");
                         let fixture = if via_link { d.join("elsewhere/fixture app") } else { d.join("proj/fixture app") }.to_string_lossy().to_string();
                         let first_build = cmds.iter().all(|c| c["cmd"] != "pack-build");
-                        let preproc = script[0]["outcome"]["preproc"] == true && first_build;
+                        let preproc = script[0]["outcome"]["preproc"] == true && (first_build || cfg["rebuild_from_context"] == true);
                         if path.len() != 1 { p17.push(format!("pack build: --path given {} times", path.len())); }
                         else if !preproc && fs::canonicalize(&path[0]).ok() != fs::canonicalize(&fixture).ok() { p17.push(format!("pack build: app path {:?} is not the configured fixture {fixture:?}", path[0])); }
                         else if preproc {
                             let listing: Vec<String> = e["path_listing"].as_array().map(|a| a.iter().map(|x| x.as_str().unwrap().to_string()).collect()).unwrap_or_default();
                             if fs::canonicalize(&path[0]).ok() == fs::canonicalize(&fixture).ok() { p17.push("pack build: a preprocessor is configured but the fixture itself was passed as app path".into()); }
-                            else if !(listing.contains(&"added-by-preprocessor".to_string()) && listing.contains(&"sub".to_string()) && !listing.contains(&"Procfile".to_string()) && listing.contains(&"sub/file=rewritten+appended".to_string()) && (!via_link || listing.contains(&"the-right-one".to_string()))) { p17.push(format!("pack build: the private app copy does not carry the preprocessor's changes: {listing:?}")); }
+                            else if !(listing.contains(&"added-by-preprocessor".to_string()) && listing.contains(&"sub".to_string()) && !listing.contains(&"Procfile".to_string()) && listing.contains(&"sub/file=rewritten+appended".to_string()) && listing.contains(&"count=+p".to_string()) && (!via_link || listing.contains(&"the-right-one".to_string()))) { p17.push(format!("pack build: the private app copy does not carry the preprocessor's changes: {listing:?}")); }
                         }
                         let _ = flags;
                         argv_events.push(json!({"kind": "pack-build", "argv": argv.iter().map(|a| tok(a)).collect::<Vec<_>>(),
